@@ -5,6 +5,10 @@
 // case:  "<id> cap=<n> | op ; op ; ..."     ops:
 //
 //	E <client> <series> <respondedTo> <cmdhex>   one committed entry (not a config change)
+//	EN / ES  the same entry as an EncodedEntry (rsm.GetEncoded: v0 uncompressed / v0 snappy), the
+//	         form pendingProposal.propose gives every non-empty command
+//	B n      the next n entries reach the replica in ONE task (Handle on a batch; handleBatch for a
+//	         concurrent state machine when all of them are NoOP-session updates)
 //	SNAP     save a snapshot, "restart": restore it into a fresh StateMachine + fresh user SM
 //	H        GetSessionHash (walks the LRU through save)
 //	D        dump the session table
@@ -17,6 +21,7 @@
 //	RESTART  fresh StateMachine: recover from the most recent snapshot, replay the log above it
 //	Q c      a client API call that does not reach the log: every exported session accessor of
 //	         the real StateMachine (found by reflection) is called, with client id c
+//	header kind=disk: IOnDiskStateMachine (apply path only: SNAP/SAVE/RESTART/INSTALL are skipped)
 //	CAP      print the default rsm.LRUMaxSessionCount of the binary (cross-check of the generated constant)
 package main
 
@@ -33,7 +38,8 @@ type op struct {
 	kind                      string
 	client, series, responded uint64
 	cmd                       []byte
-	n                         int // INSTALL: length of the lag window (entries)
+	n                         int  // INSTALL: length of the lag window (entries)
+	enc                       byte // 0 plain ApplicationEntry, 'N' EncodedEntry v0 uncompressed, 'S' EncodedEntry v0 snappy
 }
 
 func parseCase(line string) (id string, cap uint64, conc, nonVoting bool, ops []op) {
@@ -55,6 +61,9 @@ func parseCase(line string) (id string, cap uint64, conc, nonVoting bool, ops []
 		if h == "kind=conc" {
 			conc = true
 		}
+		if h == "kind=disk" {
+			diskKind = true
+		}
 		if h == "role=nonvoting" {
 			nonVoting = true
 		}
@@ -69,10 +78,14 @@ func parseCase(line string) (id string, cap uint64, conc, nonVoting bool, ops []
 			v, err := strconv.ParseUint(f[1], 10, 64)
 			must(err)
 			ops = append(ops, op{kind: "Q", client: v})
-		case "E":
+		case "E", "EN", "ES":
 			u := func(s string) uint64 { v, err := strconv.ParseUint(s, 10, 64); must(err); return v }
-			ops = append(ops, op{kind: "E", client: u(f[1]), series: u(f[2]), responded: u(f[3]), cmd: vh.UnHex(f[4])})
-		case "INSTALL", "SAVE":
+			o := op{kind: "E", client: u(f[1]), series: u(f[2]), responded: u(f[3]), cmd: vh.UnHex(f[4])}
+			if len(f[0]) == 2 && len(o.cmd) > 0 {
+				o.enc = f[0][1]
+			}
+			ops = append(ops, o)
+		case "INSTALL", "SAVE", "B":
 			n := 1
 			if f[0] == "SAVE" {
 				n = 0
@@ -152,6 +165,7 @@ func runCase(line string, obs *vh.LineWriter, st *vh.Stats) {
 		runClientCase(line, obs, st)
 		return
 	}
+	diskKind = false
 	id, cap, conc, nonVoting, ops := parseCase(line)
 	if cap == 0 {
 		obs.Printf("%s BADCAP\n", id)
@@ -204,13 +218,60 @@ func runCase(line string, obs *vh.LineWriter, st *vh.Stats) {
 			viol("snapshot image: the session table saved in the snapshot is %s, the table at the snapshot index was %s", mru, p.table)
 		}
 	}
+	// B n: entries buffered for one task; the twin applies them one by one right away
+	// (and carries the monitors), the replica under test gets them as one batch
+	type buffered struct {
+		k    int
+		o    op
+		tres string
+	}
+	var buf []buffered
+	batchLeft, batches := 0, 0
+	flush := func() {
+		batchLeft = 0
+		if len(buf) == 0 {
+			return
+		}
+		batches++
+		os := make([]op, len(buf))
+		for i := range buf {
+			os[i] = buf[i].o
+		}
+		rs, perr := r.applyBatch(os)
+		for i, b := range buf {
+			if perr != "" {
+				obs.Printf("%s %d BATCHFAIL\n", id, b.k)
+				continue
+			}
+			obs.Printf("%s %d %s\n", id, b.k, rs[i].String())
+			if rs[i].String() != b.tres {
+				viol("batching changed behaviour: op %d applied as part of a batch of %d reports %q, applied alone %q", b.k, len(buf), rs[i].String(), b.tres)
+			}
+		}
+		if perr != "" {
+			viol("ops %d..%d: applying a batch failed: %s", buf[0].k, buf[len(buf)-1].k, perr)
+		}
+		st.Count(fmt.Sprintf("batch.size<=%d", bucket(len(buf))))
+		buf = nil
+	}
 	for k, o := range ops {
+		if len(buf) > 0 && (batchLeft == 0 || o.kind != "E" || entryKind(o) == "bad") {
+			flush()
+		}
+		if o.kind != "E" {
+			batchLeft = 0
+		}
 		if installDue {
 			installDue = false
 			doInstall(k - 1)
 		}
 		if pend != nil && (pend.left <= 0 || o.kind != "E") {
 			closeSave()
+		}
+		if diskKind && (o.kind == "SNAP" || o.kind == "SAVE" || o.kind == "RESTART" || o.kind == "INSTALL") {
+			// an on-disk state machine keeps its own state; sessions are not snapshotted for it
+			obs.Printf("%s %d skip\n", id, k)
+			continue
 		}
 		if lagLeft > 0 && o.kind != "E" {
 			obs.Printf("%s %d skip\n", id, k)
@@ -242,6 +303,12 @@ func runCase(line string, obs *vh.LineWriter, st *vh.Stats) {
 			if showSessions(c0, before) != showSessions(c1, after) || acc0 != r.usm.acc {
 				viol("restart: before the restart %s sm=%d, after recovering the latest snapshot and replaying the log %s sm=%d", showSessions(c0, before), acc0, showSessions(c1, after), r.usm.acc)
 			}
+		case "B":
+			st.Count("op.B")
+			if o.n > 0 {
+				batchLeft = o.n
+			}
+			obs.Printf("%s %d B %d\n", id, k, o.n)
 		case "INSTALL":
 			st.Count("op.INSTALL")
 			if o.n > 0 {
@@ -251,16 +318,26 @@ func runCase(line string, obs *vh.LineWriter, st *vh.Stats) {
 		case "E":
 			kind := entryKind(o)
 			st.Count("op.E." + kind)
+			if o.enc != 0 {
+				st.Count("op.E.encoded." + string(o.enc))
+			}
 			x := r
+			batched := lagLeft == 0 && batchLeft > 0 && kind != "bad"
 			if lagLeft > 0 {
 				x = twin
 				st.Count("op.E.lagging")
+			} else if batched {
+				x = twin
+				st.Count("op.E.batched")
 			}
 			capBefore, before := x.dump()
 			accBefore := x.usm.acc
 			res := x.apply(o)
 			history = append(history, o)
-			if lagLeft > 0 {
+			if batched {
+				buf = append(buf, buffered{k, o, res.String()})
+				batchLeft--
+			} else if lagLeft > 0 {
 				// only the other replica applies this entry; the replica under test lags
 				obs.Printf("%s %d L %s\n", id, k, res.String())
 				lagLeft--
@@ -448,6 +525,7 @@ func runCase(line string, obs *vh.LineWriter, st *vh.Stats) {
 			obs.Printf("%s %d ? %s\n", id, k, o.kind)
 		}
 	}
+	flush()
 	if pend != nil {
 		closeSave()
 	}
@@ -466,11 +544,15 @@ func runCase(line string, obs *vh.LineWriter, st *vh.Stats) {
 	st.Count(fmt.Sprintf("case.unknown_session<=%d", bucket(rejectedHits)))
 	st.Count(fmt.Sprintf("case.snaps<=%d", bucket(snaps)))
 	st.Count(fmt.Sprintf("case.installs<=%d", bucket(installs)))
+	st.Count(fmt.Sprintf("case.batches<=%d", bucket(batches)))
 	st.Count(fmt.Sprintf("case.saves<=%d", bucket(saves)))
 	st.Count(fmt.Sprintf("case.restarts<=%d", bucket(restarts)))
 	st.Count(fmt.Sprintf("case.saves_with_entries_in_flight<=%d", bucket(windowed)))
 	if conc {
 		st.Count("case.kind=conc")
+	}
+	if diskKind {
+		st.Count("case.kind=disk")
 	}
 	if nonVoting {
 		st.Count("case.role=nonvoting")
